@@ -43,3 +43,7 @@ open SamVerif.ErrorSet SamVerif.Layout SamVerif.MirFull SamVerif.TempCounter
 #print axioms parse_order_by_name_perm_invariant
 #print axioms parse_order_by_parts_counterexample
 #print axioms parse_order_by_parts_partial
+#print axioms phases_disjoint
+#print axioms pipeline_disjoint
+#print axioms dropped_sync_counterexample
+#print axioms dropped_sync_partial
